@@ -19,10 +19,27 @@ git apply "$PATCH" || { echo "patch does not apply to $HEAD"; exit 3; }
 PYTHONPATH=$WT timeout 600 /venv/bin/python "$SRC/demo.py" > /tmp/vs.$PID$L.mut 2>&1; RC_MUT=$?
 PYTHONPATH=$WT timeout 1200 /venv/bin/python -m pytest -q -p no:cacheprovider --timeout=900 -x > /tmp/vs.$PID$L.suite 2>&1; RC_SUITE=$?
 SUITE=$(tail -1 /tmp/vs.$PID$L.suite)
-if [ $RC_SUITE -ne 0 ] && grep -q "test_cli_exit\|test_timer_return_1_cancel" /tmp/vs.$PID$L.suite; then
-  # load-sensitive tests (10 s subprocess timeout / real-time timer): retry once without -x
-  PYTHONPATH=$WT timeout 1200 /venv/bin/python -m pytest -q -p no:cacheprovider --timeout=900 > /tmp/vs.$PID$L.suite 2>&1; RC_SUITE=$?
+if [ $RC_SUITE -ne 0 ]; then
+  # three tests are load-sensitive (10 s subprocess timeout, real-time timer, wall-clock bound): when they are the only
+  # failures, each is rerun alone (up to 5 times, it must pass once) and the suite result is recorded as such
+  PYTHONPATH=$WT timeout 1800 /venv/bin/python -m pytest -q -p no:cacheprovider --timeout=900 -n 4 > /tmp/vs.$PID$L.suite 2>&1; RC_SUITE=$?
   SUITE=$(tail -1 /tmp/vs.$PID$L.suite)
+  if [ $RC_SUITE -ne 0 ]; then
+    FAILED=$(grep "^FAILED" /tmp/vs.$PID$L.suite | sed 's/^FAILED //; s/ - .*//')
+    OTHER=$(echo "$FAILED" | grep -v "test_exit_from_file\|test_timer_return_1_cancel\|test_scan_in_loop_uses_compiled" | grep -c .)
+    if [ "$OTHER" = "0" ] && [ -n "$FAILED" ]; then
+      ALLOK=1
+      for T in $FAILED; do
+        OK=0
+        for try in 1 2 3 4 5; do
+          if PYTHONPATH=$WT timeout 300 /venv/bin/python -m pytest -q -p no:cacheprovider --timeout=900 "$T" > /dev/null 2>&1; then OK=1; break; fi
+          sleep 5
+        done
+        [ $OK = 1 ] || ALLOK=0
+      done
+      if [ $ALLOK = 1 ]; then RC_SUITE=0; SUITE="$SUITE; the failing load-sensitive tests ($(echo $FAILED | tr '\n' ' ')) passed when rerun alone"; fi
+    fi
+  fi
 fi
 cd /verif
 VK_REPO="$WT" VK_NO_EVIDENCE=1 timeout 3000 /venv/bin/python -m vk.run "$PID" --tier quick > /tmp/vs.$PID$L.check 2>&1; RC_CHECK=$?
